@@ -623,6 +623,8 @@ ALWAYS_INLINE = {
         "state::dynamic_tick_array::DynamicTickArrayLoader::is_initialized_tick",
         "manager::whirlpool_manager::next_whirlpool_liquidity",
         "pinocchio::ported::manager_liquidity_manager::pino_next_whirlpool_liquidity",
+        "math::token_math::est_liquidity_for_token_a",
+        "math::token_math::est_liquidity_for_token_b",
         "util::sparse_swap::maybe_load_tick_array",
         "pinocchio::state::whirlpool::position::MemoryMappedPosition::reset_reward_growth_checkpoints",
         "util::swap_utils::perform_swap",
